@@ -131,6 +131,11 @@ fn run(ctx: &Ctx) {
 	if !ctx.run_prop("rc", n, scenario(50), run_scenario) {
 		return
 	}
+	// reference counts while the library's own worker threads move the data
+	let n = scaled(ctx, 1_500, 30_000);
+	if !ctx.run_prop("rc-bg", n, scenario(50), super::c01::run_scenario_workers) {
+		return
+	}
 	if ctx.tier == "thorough" {
 		let opts = super::c02::CrashOpts { cap: 200, rec_depth: 1, synced_bound: false, tail: true, layout: false, tolerate_known: true };
 		let n = scaled(ctx, 0, 1_500);
@@ -150,6 +155,12 @@ fn replay(ctx: &Ctx, path: &Path) -> Result<(), Failure> {
 		let opts = super::c02::CrashOpts { cap: 200, rec_depth: 1, synced_bound: false, tail: true, layout: false, tolerate_known: true };
 		return guarded(|| super::c02::run_crash_case(&case, &dir, &opts)).map(|_| ())
 	}
-	let (_sub, sc): (String, Scenario) = load_replay(path).map_err(|e| Failure::new("bad-replay", e))?;
+	let (sub, sc): (String, Scenario) = load_replay(path).map_err(|e| Failure::new("bad-replay", e))?;
+	if sub == "rc-bg" {
+		for _ in 0..20 {
+			guarded(|| super::c01::run_scenario_workers(&sc, &ctx.case_dir())).map(|_| ())?;
+		}
+		return Ok(())
+	}
 	guarded(|| run_scenario(&sc, &dir)).map(|_| ())
 }
